@@ -16,13 +16,14 @@ Section Decompressors.
   Variable l_new : bytes -> option inst * ures.
   Variable l_reset : inst -> bytes -> inst * ures.
   Variable l_read : inst -> option N -> inst * rres.
+  Variable l_readn : inst -> N -> inst * pres.
   Variable l_close : inst -> inst * ures.
-  Hypothesis C : lib_contract inst dec view l_zero l_new l_reset l_read l_close.
+  Hypothesis C : lib_contract inst dec view l_zero l_new l_reset l_read l_readn l_close.
 
-  Notation step := (d_step inst l_new l_reset l_read l_close).
+  Notation step := (d_step inst l_new l_reset l_read l_readn l_close).
   Notation init := (d_init inst l_zero).
-  Notation run := (d_run inst l_new l_reset l_read l_close).
-  Notation after := (d_after inst l_new l_reset l_read l_close).
+  Notation run := (d_run inst l_new l_reset l_read l_readn l_close).
+  Notation after := (d_after inst l_new l_reset l_read l_readn l_close).
 
   (* ---------- the library, as far as the wrappers need it ---------- *)
   Definition sourced (i : inst) : Prop := view i <> NoSrc.
@@ -35,22 +36,46 @@ Section Decompressors.
     unfold sourced, open. intros S. destruct (view i) as [|y e| |] eqn:V; [congruence| | |].
     - destruct e.
       + destruct n as [k|].
-        * destruct (lc_read_err_n _ _ _ _ _ _ _ _ C i y k V) as (H1 & [H2|(y' & H2)]); rewrite H2;
+        * destruct (lc_read_err_n _ _ _ _ _ _ _ _ _ C i y k V) as (H1 & [H2|(y' & H2)]); rewrite H2;
             repeat split; try assumption; congruence.
-        * destruct (lc_read_err _ _ _ _ _ _ _ _ C i y V) as (H1 & H2). rewrite H1, H2.
+        * destruct (lc_read_err _ _ _ _ _ _ _ _ _ C i y V) as (H1 & H2). rewrite H1, H2.
           repeat split; congruence.
-      + destruct (lc_read _ _ _ _ _ _ _ _ C i y n V) as (H1 & H2). rewrite H1, H2. repeat split; congruence.
-    - destruct (lc_failed_read _ _ _ _ _ _ _ _ C i n V) as (H1 & H2). rewrite H2. repeat split; congruence.
-    - destruct (lc_closed_read _ _ _ _ _ _ _ _ C i n V) as (H1 & H2). rewrite H2. repeat split; congruence.
+      + destruct (lc_read _ _ _ _ _ _ _ _ _ C i y n V) as (H1 & H2). rewrite H1, H2. repeat split; congruence.
+    - destruct (lc_failed_read _ _ _ _ _ _ _ _ _ C i n V) as (H1 & H2). rewrite H2. repeat split; congruence.
+    - destruct (lc_closed_read _ _ _ _ _ _ _ _ _ C i n V) as (H1 & H2). rewrite H2. repeat split; congruence.
   Qed.
 
   Lemma lib_read_nosrc i n :
     open i -> snd (l_read i n) = RCrash \/ open (fst (l_read i n)).
   Proof.
     unfold open. intros O. destruct (view i) eqn:V.
-    - destruct (lc_nosrc_read _ _ _ _ _ _ _ _ C i n V) as [H|H]; [left; exact H|right; congruence].
+    - destruct (lc_nosrc_read _ _ _ _ _ _ _ _ _ C i n V) as [H|H]; [left; exact H|right; congruence].
     - right. apply lib_read; unfold sourced, open; congruence.
     - right. apply lib_read; unfold sourced, open; congruence.
+    - congruence.
+  Qed.
+
+  Lemma lib_readn i n :
+    sourced i ->
+    snd (l_readn i n) <> PCrash /\ sourced (fst (l_readn i n)) /\ (open i -> open (fst (l_readn i n))).
+  Proof.
+    unfold sourced, open. intros S. destruct (view i) as [|y e| |] eqn:V; [congruence| | |].
+    - destruct e.
+      + destruct (lc_readn_err _ _ _ _ _ _ _ _ _ C i y n V) as (H1 & [H2|(y' & H2)]); rewrite H2;
+          repeat split; try assumption; congruence.
+      + destruct (lc_readn _ _ _ _ _ _ _ _ _ C i y n V) as (z & y' & st & H1 & _ & _ & H2 & _).
+        rewrite H1, H2. repeat split; congruence.
+    - destruct (lc_failed_readn _ _ _ _ _ _ _ _ _ C i n V) as (H1 & H2). rewrite H2. repeat split; congruence.
+    - destruct (lc_closed_readn _ _ _ _ _ _ _ _ _ C i n V) as (H1 & H2). rewrite H2. repeat split; congruence.
+  Qed.
+
+  Lemma lib_readn_nosrc i n :
+    open i -> snd (l_readn i n) = PCrash \/ open (fst (l_readn i n)).
+  Proof.
+    unfold open. intros O. destruct (view i) eqn:V.
+    - destruct (lc_nosrc_readn _ _ _ _ _ _ _ _ _ C i n V) as [H|H]; [left; exact H|right; congruence].
+    - right. apply lib_readn; unfold sourced, open; congruence.
+    - right. apply lib_readn; unfold sourced, open; congruence.
     - congruence.
   Qed.
 
@@ -58,9 +83,9 @@ Section Decompressors.
     sourced i -> snd (l_close i) <> UCrash /\ view (fst (l_close i)) = Closed.
   Proof.
     unfold sourced. intros S. destruct (view i) as [|y e| |] eqn:V; [congruence| | |].
-    - destruct (lc_close _ _ _ _ _ _ _ _ C i y e V) as (H1 & _ & H2). auto.
-    - apply (lc_failed_close _ _ _ _ _ _ _ _ C i V).
-    - apply (lc_closed_close _ _ _ _ _ _ _ _ C i V).
+    - destruct (lc_close _ _ _ _ _ _ _ _ _ C i y e V) as (H1 & _ & H2). auto.
+    - apply (lc_failed_close _ _ _ _ _ _ _ _ _ C i V).
+    - apply (lc_closed_close _ _ _ _ _ _ _ _ _ C i V).
   Qed.
 
   Lemma positions_props r s :
@@ -78,7 +103,7 @@ Section Decompressors.
     (forall i, fst (l_new s) = Some i -> sourced i /\ open i) /\
     match dec s with HdrErr => True | Body y e => exists i, fst (l_new s) = Some i /\ view i = At y e end.
   Proof.
-    pose proof (lc_new _ _ _ _ _ _ _ _ C s) as H. unfold sourced, open. destruct (dec s).
+    pose proof (lc_new _ _ _ _ _ _ _ _ _ C s) as H. unfold sourced, open. destruct (dec s).
     - destruct H as (H1 & H2). split; [exact H1|]. split; [|exact Logic.I].
       intros i E. rewrite (H2 i E). split; congruence.
     - destruct H as (i & E & V). rewrite E. simpl. split; [reflexivity|]. split.
@@ -108,7 +133,7 @@ Section Decompressors.
   Lemma inv_init k : inv k false (init k).
   Proof.
     destruct k; simpl; try exact Logic.I; try (intros; congruence);
-      (split; [unfold open; rewrite (lc_zero _ _ _ _ _ _ _ _ C); congruence | intros; congruence]).
+      (split; [unfold open; rewrite (lc_zero _ _ _ _ _ _ _ _ _ C); congruence | intros; congruence]).
   Qed.
 
   Lemma inv_weaken k st : inv k true st -> inv k false st.
@@ -128,9 +153,9 @@ Section Decompressors.
   Lemma reset_any_view i s : needs KGzip -> positions inst dec view (l_reset i s) s.
   Proof.
     intros Hk. simpl in Hk. destruct (view i) eqn:V.
-    - apply (lc_reset _ _ _ _ _ _ _ _ C); congruence.
-    - apply (lc_reset _ _ _ _ _ _ _ _ C); congruence.
-    - apply (lc_reset _ _ _ _ _ _ _ _ C); congruence.
+    - apply (lc_reset _ _ _ _ _ _ _ _ _ C); congruence.
+    - apply (lc_reset _ _ _ _ _ _ _ _ _ C); congruence.
+    - apply (lc_reset _ _ _ _ _ _ _ _ _ C); congruence.
     - apply Hk; exact V.
   Qed.
 
@@ -164,7 +189,7 @@ Section Decompressors.
     - (* zstd *)
       destruct d as [i|].
       + destruct I as (O & _).
-        pose proof (lc_reset _ _ _ _ _ _ _ _ C i s O) as P. apply positions_props in P.
+        pose proof (lc_reset _ _ _ _ _ _ _ _ _ C i s O) as P. apply positions_props in P.
         destruct P as (P1 & P2 & P3 & P4 & P5).
         destruct (l_reset i s) as [i' u]. simpl in *. subst u.
         destruct (dec s); simpl; repeat split; auto.
@@ -181,7 +206,7 @@ Section Decompressors.
          |destruct N3 as (i & -> & V); simpl; repeat split; auto; apply (N2 i eq_refl)]).
     - (* snappy *)
       destruct I as (O & _).
-      pose proof (lc_reset _ _ _ _ _ _ _ _ C i s O) as P. apply positions_props in P.
+      pose proof (lc_reset _ _ _ _ _ _ _ _ _ C i s O) as P. apply positions_props in P.
       destruct P as (P1 & P2 & P3 & P4 & P5).
       destruct (l_reset i s) as [i' u]. simpl in *. subst u.
       destruct (dec s); simpl; repeat split; auto.
@@ -191,7 +216,7 @@ Section Decompressors.
   Lemma step_inv k b st op :
     needs k -> inv k b st -> is_crash (snd (step st op)) = false -> inv k b (fst (step st op)).
   Proof.
-    intros Hk I NC. destruct op as [s|n|].
+    intros Hk I NC. destruct op as [s|n| |n].
     - destruct (step_reset k b st s Hk I) as (_ & I' & _). destruct b; [exact I'|apply inv_weaken; exact I'].
     - revert I NC. unfold inv.
       destruct k, st as [r|r|r|d|r|i|]; try contradiction; cbn [d_step].
@@ -225,12 +250,32 @@ Section Decompressors.
         destruct (lib_close i S) as (_ & V). destruct (l_close i); simpl in *.
         unfold sourced. rewrite V. congruence.
       + fin.
+    - revert I NC. unfold inv.
+      destruct k, st as [r|r|r|d|r|i|]; try contradiction; cbn [d_step].
+      + destruct r; fin.
+      + destruct r as [i|]; [|fin]. simpl. intros S _.
+        destruct (lib_readn i n S) as (_ & S' & _). destruct (l_readn i n); simpl in *. exact S'.
+      + destruct r as [i|]; [|fin]. simpl. intros S NC.
+        destruct (l_readn i n) as [i' r'] eqn:E. simpl in *. intros b1.
+        pose proof (lib_readn i n (S b1)) as L. rewrite E in L. simpl in L. tauto.
+      + destruct d as [i|]; [|fin]. simpl. intros (O & S) NC.
+        pose proof (lib_readn_nosrc i n O) as L1.
+        destruct (l_readn i n) as [i' r'] eqn:E. simpl in *.
+        destruct L1 as [X|O']; [subst r'; discriminate|]. split; [exact O'|]. intros b1.
+        pose proof (lib_readn i n (S b1)) as L. rewrite E in L. simpl in L. tauto.
+      + destruct r as [|i|]; [fin| |fin]. simpl. intros S _.
+        destruct (lib_readn i n S) as (_ & S' & _). destruct (l_readn i n); simpl in *. exact S'.
+      + simpl. intros (O & S) NC.
+        pose proof (lib_readn_nosrc i n O) as L1.
+        destruct (l_readn i n) as [i' r'] eqn:E. simpl in *.
+        destruct L1 as [X|O']; [subst r'; discriminate|]. split; [exact O'|]. intros b1.
+        pose proof (lib_readn i n (S b1)) as L. rewrite E in L. simpl in L. tauto.
   Qed.
 
   (* once a Reset was called, nothing panics *)
   Lemma step_no_crash k st op : needs k -> inv k true st -> is_crash (snd (step st op)) = false.
   Proof.
-    intros Hk I. destruct op as [s|n|].
+    intros Hk I. destruct op as [s|n| |n].
     - destruct (step_reset k true st s Hk I) as (E & _). rewrite E. destruct (dec_of k dec s), k; reflexivity.
     - revert I. unfold inv.
       destruct k, st as [r|r|r|d|r|i|]; try contradiction; cbn [d_step].
@@ -264,6 +309,24 @@ Section Decompressors.
         destruct (lib_close i S) as (NC & _). destruct (l_close i) as [i' u]; simpl in *.
         destruct u; congruence.
       + fin.
+    - revert I. unfold inv.
+      destruct k, st as [r|r|r|d|r|i|]; try contradiction; cbn [d_step].
+      + destruct r as [r|]; simpl; intros H; [reflexivity|exfalso; apply H; reflexivity].
+      + destruct r as [i|]; [|fin]. simpl. intros S.
+        destruct (lib_readn i n S) as (NC & _). destruct (l_readn i n) as [i' r]; simpl in *.
+        destruct r; congruence.
+      + destruct r as [i|]; [|fin]. simpl. intros S. specialize (S eq_refl).
+        destruct (lib_readn i n S) as (NC & _). destruct (l_readn i n) as [i' r]; simpl in *.
+        destruct r; congruence.
+      + destruct d as [i|]; [|fin]. simpl. intros (_ & S). specialize (S eq_refl).
+        destruct (lib_readn i n S) as (NC & _). destruct (l_readn i n) as [i' r]; simpl in *.
+        destruct r; congruence.
+      + destruct r as [|i|]; [fin| |fin]. simpl. intros S.
+        destruct (lib_readn i n S) as (NC & _). destruct (l_readn i n) as [i' r]; simpl in *.
+        destruct r; congruence.
+      + intros (_ & S). specialize (S eq_refl).
+        destruct (lib_readn i n S) as (NC & _). destruct (l_readn i n) as [i' r]; simpl in *.
+        destruct r; congruence.
   Qed.
 
   Lemma read_is_OR st n : exists r, snd (step st (DRead n)) = OR r.
@@ -286,8 +349,8 @@ Section Decompressors.
       assert (L : forall i, view i = At y e ->
                   snd (l_read i None) = if e then RErr else ROk y).
       { intros i V. destruct e.
-        - apply (lc_read_err _ _ _ _ _ _ _ _ C i y V).
-        - apply (lc_read _ _ _ _ _ _ _ _ C i y None V). }
+        - apply (lc_read_err _ _ _ _ _ _ _ _ _ C i y V).
+        - apply (lc_read _ _ _ _ _ _ _ _ _ C i y None V). }
       destruct k, st as [r|r|r|dd|r|i|]; try contradiction; cbn [d_step].
       + destruct r as [r|]; [|contradiction]. destruct P as (-> & ->). simpl. eexists; split; reflexivity.
       + destruct r as [i|]; [|contradiction]. specialize (L i P). destruct (l_read i None) as [i' r]. simpl in *.
@@ -578,8 +641,9 @@ Proof. destruct 1; [left; reflexivity|right..]; eexists; eexists; reflexivity. Q
 (* ====================================================================== *)
 (* the stand-in codec satisfies the contract (the hypotheses are inhabited) *)
 (* ====================================================================== *)
-Lemma toy_contract loud closed_ok :
-  lib_contract lview toy_dec (fun v => v) NoSrc toy_new (toy_reset closed_ok) (toy_read loud) toy_close.
+Lemma toy_contract loud eager closed_ok :
+  lib_contract lview toy_dec (fun v => v) NoSrc toy_new (toy_reset closed_ok) (toy_read loud)
+               (toy_readn loud eager) toy_close.
 Proof.
   constructor.
   - reflexivity.
@@ -599,6 +663,30 @@ Proof.
   - intros i n ->. simpl. split; [discriminate|reflexivity].
   - intros i ->. simpl. split; [discriminate|reflexivity].
   - intros i n ->. simpl. right; reflexivity.
+  - intros i y n ->. simpl.
+    exists (firstn (N.to_nat n) y), (skipn (N.to_nat n) y).
+    eexists. split; [reflexivity|]. split; [symmetry; apply firstn_skipn|]. split.
+    { pose proof (firstn_le_length (N.to_nat n) y). lia. }
+    split; [reflexivity|]. destruct (skipn (N.to_nat n) y) eqn:E.
+    + split; [|reflexivity]. destruct ((0 <? n) && _); discriminate.
+    + split; discriminate.
+  - intros i y n ->. simpl. destruct (n <? N.of_nat (length y)); simpl.
+    + split; [discriminate|]. right. eexists; reflexivity.
+    + split; [discriminate|]. left; reflexivity.
+  - intros i n ->. simpl. split; [discriminate|reflexivity].
+  - intros i n ->. simpl. split; [discriminate|reflexivity].
+  - intros i n ->. simpl. destruct loud; [left|right]; reflexivity.
+Qed.
+
+Lemma toy_progress loud eager : lib_progress lview (fun v => v) (toy_readn loud eager).
+Proof.
+  intros i y n z st -> Hn E.
+  assert (Hn' : (0 <? n) = true) by (apply N.ltb_lt; exact Hn).
+  destruct y as [|a y].
+  - simpl in E. rewrite firstn_nil, skipn_nil, Hn', Bool.orb_true_r in E. simpl in E.
+    inversion E; subst. split; [congruence|reflexivity].
+  - split; [|discriminate]. intros _. simpl in E.
+    destruct (N.to_nat n) eqn:En; [lia|]. simpl in E. inversion E; subst. discriminate.
 Qed.
 
 Lemma toy_reset_after_close : reset_after_close lview toy_dec (fun v => v) (toy_reset true).
